@@ -336,7 +336,7 @@ Outcome run_gen(const Plan & plan, const RunCtx & ctx)
       I.gen.reset(); // destroy the previous instance (if any), then a new one
       I.gen.reset(new bxdecay0::decay0_generator);
       I.cfg = cfg_of(op); I.has_cfg = false; I.inited = false; I.shots = 0; I.last = "new";
-      try { apply_cfg(*I.gen, I.cfg, user_op(I.cfg.mdl)); I.has_cfg = true; }
+      try { apply_cfg(*I.gen, I.cfg, user_op); I.has_cfg = true; }
       catch (std::exception & e) { tr.adds("cfg-throw"); out.ctr["cfg_rejected"]++; }
       tr.adds("cfg"); tr.adds(I.cfg.key());
     } else if (op.k == "recfg") {
@@ -349,11 +349,11 @@ Outcome run_gen(const Plan & plan, const RunCtx & ctx)
         // operations cannot be unregistered: the effective configuration keeps the one already there
         GenCfg c2 = I.cfg;
         if (registered != 0) { I.cfg.mdl = registered; c2.mdl = 0; }
-        apply_cfg(*I.gen, c2, user_op(c2.mdl));
+        apply_cfg(*I.gen, c2, user_op);
         // make the object's public configuration exactly the one the canonical instance gets
         if (I.cfg.cat == 2 || !I.cfg.has_window()) I.gen->set_decay_dbd_esum_range(NAN, NAN);
         if (I.cfg.cat == 2) { I.gen->set_decay_dbd_level(bxdecay0::decay0_generator::DBD_LEVEL_INVALID); I.gen->set_decay_dbd_mode(bxdecay0::DBDMODE_UNDEF); }
-        I.has_cfg = I.gen->get_operations().size() == (I.cfg.mdl ? 1u : 0u);
+        I.has_cfg = I.gen->get_operations().size() == preset_parts(I.cfg.mdl).size();
       } catch (std::exception &) { out.ctr["cfg_rejected"]++; }
       if (I.last.rfind("init-re", 0) == 0 || I.last == "init-faulted") out.ctr["probe_reconfigured_after_failed_initialize"]++;
       I.last = "recfg-after-" + I.last;
@@ -396,7 +396,7 @@ Outcome run_gen(const Plan & plan, const RunCtx & ctx)
       I.gen->reset();
       I.inited = false;
       try {
-        apply_cfg(*I.gen, I.cfg, user_op(I.cfg.mdl));
+        apply_cfg(*I.gen, I.cfg, user_op);
         SimRandom r(init_key(op.arg(1)));
         r.begin_op(INIT_BUDGET);
         I.gen->initialize(r);
@@ -472,6 +472,20 @@ Outcome run_gen(const Plan & plan, const RunCtx & ctx)
       // C04 oracle
       {
         std::string why = malformed_reason(ev, I.cfg.mode >= 21 ? std::string("dbd_gA") : I.cfg.nuc);
+        if (why.empty() && I.cfg.cat == 1 && I.cfg.mode < 21) {
+          // "physically bounded": what all particles of a double-beta event carry away cannot exceed the energy released
+          // by the decay (Q-value of the nuclide: committed catalogue data, not asked from the tree under test)
+          static std::map<std::string, double> q_of;
+          if (q_of.empty()) for (auto & e : dbd_catalogue()) { double & q = q_of[e.nuc]; q = std::max(q, e.q_keV); }
+          auto qi = q_of.find(I.cfg.nuc);
+          if (qi != q_of.end()) {
+            double sum = 0; bool alpha = false;
+            for (auto & p : ev.get_particles()) { double m = bxdecay0::particle_mass_MeV(p.get_code()); double pp = p.get_p(); sum += std::sqrt(pp * pp + m * m) - m; if (p.get_code() == bxdecay0::ALPHA) alpha = true; }
+            // tolerance 5 keV: level energies are whole keV in the library's tables while the de-excitation gammas carry their
+            // tabulated energies; an alpha means the event includes the decay of the daughter (Bi214 -> At214 -> ...): not bounded by Q
+            if (!alpha && sum > qi->second * 1e-3 + 5e-3) { why = "kinetic-energy-above-Q"; out.mx["max_excess_over_Q_keV"] = std::max<i64>(out.mx["max_excess_over_Q_keV"], (i64)(sum * 1e3 - qi->second)); }
+          }
+        }
         if (!why.empty()) {
           out.ctr["malformed_events"]++;
           if (check04) {
@@ -758,6 +772,9 @@ Plan gen_sweep(u64 seed, u64 idx, const RunCtx & ctx)
       else { c.emin_keV = -r.range(1500, 3000); c.emax_keV = -r.range(100, 1400); }
     }
   }
+  // a quarter of the sweep runs register post-generation operations (one, or two in a row): the code between
+  // generation and the operations sees every branch of every nuclide too
+  if (!systematic && r.chance(0.25)) c.mdl = (int)r.range(1, mdl_presets());
   p.hdr["faults"] = "1";
   p.ops.push_back(op_cfg(0, c));
   Op in; in.k = "init"; in.a = {0, (i64)r.below(1000), -1, -1};
